@@ -229,7 +229,7 @@ def run(ctx):
                 "of foreign classes x junk units x 9 numeric literals, plus bare numbers; distinct = distinct tag text")
     ctx.tlc("MC_Units", "MC_Units.cfg", workers=4, coverage=False, label="model: lookup functional, symbols exact")
     versions = [v for v, _ in facts.bundled()]
-    plan = ["8.3.0", "8.0.0", "score_2.0.0"] if quick else versions
+    plan = versions      # every bundled schema: their unit sections differ in notation (10^-3 vs 0.001) and in content
     jobs = [(v, quick, ctx.seed, ctx.work) for v in plan]
     with mp.get_context("fork").Pool(min(12, len(jobs))) as pool:
         results = pool.map(validate_schema, jobs, chunksize=1)
